@@ -74,10 +74,6 @@ static std::string write_pgm(const std::string& name, const std::string& magic, 
 }
 static std::vector<std::string> splitc(const std::string& s) { std::vector<std::string> r; std::string t; std::istringstream is(s); while (std::getline(is, t, ':')) r.push_back(t); return r; }
 
-// the cell row of latitude +90 must be row 0: floor(-90 * _rlatres) >= -(h-1)/2.  For raster heights where the two roundings
-// of 90 * ((h-1)/180) end above (h-1)/2 the code computes row -1 (open finding, class north-pole-row).
-static bool north_row_bad(int h) { double r = (h - 1) / 180.0; return std::floor(-90.0 * r) < -double((h - 1) / 2); }
-
 // constructor with the text of the exception (file name stripped)
 struct Ctor { std::unique_ptr<Geoid> g; std::string err; bool geo = false; };
 static Ctor construct(const std::string& name, const std::string& dir, bool cubic, bool ts) {
@@ -111,24 +107,22 @@ static Reg r_geoid("geoid", [](const Args& a) {
     auto t = splitc(a[i]);
     if (t[0] == "H") {
       double lat = unhx(t[1]), lon = unhx(t[2]), v = 0;
-      const bool npole = lat == 90 && north_row_bad(h);
-      const std::string cls = npole ? " [class:north-pole-row]" : "";
       // documented: no file access for a position inside a successfully cached area
       bool inside = false;
-      if (!ts && g->Cache() && std::isfinite(lat) && std::isfinite(lon) && std::fabs(lat) <= 90 && !npole) {
+      if (!ts && g->Cache() && std::isfinite(lat) && std::isfinite(lon) && std::fabs(lat) <= 90) {
         double W = g->CacheWest(), E = g->CacheEast(), N = g->CacheNorth(), S = g->CacheSouth(), ln = Math::AngNormalize(lon), m = 1e-6;
         if (lat < N - m && lat > S + m) for (int k = -1; k <= 2; ++k) if (ln + 360 * k > W + m && ln + 360 * k < E - m) inside = true;
         if (inside) { g->_file.clear(); g->_file.seekg(0); }
       }
       std::string e = guarded([&] { v = (*g)(lat, lon); });
       out += " " + (e.empty() ? hx(v) : e);
-      if (!e.empty()) { bad(npole ? "north-pole-cell-row" : "height-throws", "height query threw " + e + " at op " + std::to_string(i - 8) + cls); continue; }
+      if (!e.empty()) { bad("height-throws", "height query threw " + e + " at op " + std::to_string(i - 8)); continue; }
       if (inside && g->_file.tellg() != std::streampos(0)) bad("cached-area-reads-file", "a query inside the reported cache extent accessed the file (op " + std::to_string(i - 8) + ")");
       // the property itself: bit-for-bit the value a fresh object (no history, no cache) and a thread-safe object return
       double v1 = 0, v2 = 0; std::unique_ptr<Geoid> f1;
       std::string e1 = guarded([&] { f1.reset(new Geoid(name, tmpdir(), cubic, false)); v1 = (*f1)(lat, lon); }), e2 = guarded([&] { v2 = (*fresh_ts)(lat, lon); });
-      if (!e1.empty()) { bad(npole ? "north-pole-cell-row" : "height-throws", "fresh object threw " + e1 + cls); continue; }
-      if (!e2.empty()) bad(npole ? "north-pole-cell-row" : "cache-mode-dependence", "thread-safe object threw " + e2 + " where a plain object returns " + fmt(v1) + cls);
+      if (!e1.empty()) { bad("height-throws", "fresh object threw " + e1); continue; }
+      if (!e2.empty()) bad("cache-mode-dependence", "thread-safe object threw " + e2 + " where a plain object returns " + fmt(v1));
       if (bits(v1) != bits(v) && !(std::isnan(v) && std::isnan(v1))) bad("history-dependence", "height differs from a fresh object's: " + fmt(v) + " vs " + fmt(v1) + " at op " + std::to_string(i - 8));
       if (e2.empty() && bits(v2) != bits(v) && !(std::isnan(v) && std::isnan(v2))) bad("cache-mode-dependence", "height differs from a thread-safe object's: " + fmt(v) + " vs " + fmt(v2) + " at op " + std::to_string(i - 8));
       if (std::isfinite(lat) && std::isfinite(lon) && std::fabs(lat) <= 90) {
@@ -136,7 +130,7 @@ static Reg r_geoid("geoid", [](const Args& a) {
         double l2 = lon + 360; if (l2 - 360 == lon && std::remainder(l2, 360.0) == std::remainder(lon, 360.0)) { double v3 = (*f1)(lat, l2); if (bits(v3) != bits(v1)) bad("longitude-period", "height(lat, lon+360) differs"); }
         if (std::isnan(v)) bad("nan-for-finite-input", "NaN height for a finite position");
         // a bilinear height is a convex combination of pixel values
-        if (!cubic && !npole && !(v >= offset - 1e-9 * mag && v <= offset + scale * 65535 + 1e-9 * mag)) bad("height-range", "bilinear height " + fmt(v) + " outside the range of the data");
+        if (!cubic && !(v >= offset - 1e-9 * mag && v <= offset + scale * 65535 + 1e-9 * mag)) bad("height-range", "bilinear height " + fmt(v) + " outside the range of the data");
       } else if (!std::isnan(v)) bad("nan-input", "non-NaN height for NaN / out-of-range latitude input");
     } else if (t[0] == "C") {
       // ConvertHeight in both directions; mutually inverse to round-off; NONE is the identity
@@ -144,8 +138,7 @@ static Reg r_geoid("geoid", [](const Args& a) {
       std::string e = guarded([&] { up = g->ConvertHeight(lat, lon, hh, Geoid::GEOIDTOELLIPSOID); dn = g->ConvertHeight(lat, lon, hh, Geoid::ELLIPSOIDTOGEOID); N = (*g)(lat, lon);
         back = g->ConvertHeight(lat, lon, up, Geoid::ELLIPSOIDTOGEOID); back2 = g->ConvertHeight(lat, lon, dn, Geoid::GEOIDTOELLIPSOID); same = g->ConvertHeight(lat, lon, hh, Geoid::NONE); });
       out += " " + (e.empty() ? hx(up) + ":" + hx(dn) : e);
-      const bool npole = lat == 90 && north_row_bad(h);
-      if (!e.empty()) { bad(npole ? "north-pole-cell-row" : "height-throws", "ConvertHeight threw " + e + (npole ? " [class:north-pole-row]" : "")); continue; }
+      if (!e.empty()) { bad("height-throws", "ConvertHeight threw " + e); continue; }
       if (std::isfinite(N) && std::isfinite(hh)) {
         double tol = 4 * ulp(std::fabs(hh) + std::fabs(N));
         if (!(std::fabs(back - hh) <= tol) || !(std::fabs(back2 - hh) <= tol)) bad("convert-height-inverse", "ConvertHeight round trip off by " + fmt(back - hh) + " / " + fmt(back2 - hh) + " (tolerance " + fmt(tol) + ")");
@@ -282,10 +275,7 @@ static Reg r_pgm("geoidpgm", [](const Args& a) {
     bad("inspectors", "EquatorialRadius/Flattening are not those of WGS84, or a cache extent is reported without a cache");
   // an accepted file can be read everywhere
   static const double lats[] = {90, -90, 0, 45.5, -89.999, 89.999}, lons[] = {0, -180, 180, 359.9, -0.1};
-  const bool hugeh = g._height > (1 << 30);     // 2 * (_height - 1) overflows int beyond the poles (cubic stencil): not exercised here
   for (double la : lats) for (double lo : lons) {
-    if (la == 90 && north_row_bad(g._height)) continue;
-    if (hugeh && cubic && std::fabs(la) > 89) continue;
     double v = 0; std::string e = guarded([&] { v = g(la, lo); });
     if (!e.empty()) { bad("accepted-file-unreadable", "height(" + fmt(la) + ", " + fmt(lo) + ") threw " + e + " on an accepted file"); break; }
     if (big) { double z = 0, ref = g.Offset() + g.Scale() * z; if (!(v == ref)) { bad("sparse-raster-value", "height " + fmt(v) + " on an all-zero raster, expected " + fmt(ref)); break; } }
@@ -319,11 +309,10 @@ static Reg r_big("geoidbig", [](const Args& a) {
   double dlat = 180.0 / double(h - 1), dlon = 360.0 / double(w), tol = 1e-5 * g.Scale() * 65535;
   for (auto& q : pix) {
     long ix = long(q.first % uint64_t(w)), iy = long(q.first / uint64_t(w)); double lat = 90 - double(iy) * dlat, lon = double(ix) * dlon, v = 0; if (lat < -90) lat = -90;
-    if (lat == 90 && north_row_bad(int(h))) continue;
     std::string e = guarded([&] { v = g(lat, lon); }); double ref = g.Offset() + g.Scale() * q.second; ++n;
     // neighbouring poked pixels can leak in with the weight of the rounding of lat/lon (<= 2^-22 cells)
     if (!e.empty() || !(std::fabs(v - ref) <= tol)) { if (nb++ < 3) bad("large-raster-pixel", "pixel " + std::to_string(q.first) + " (col " + std::to_string(ix) + ", row " + std::to_string(iy) + ") of a " + std::to_string(w) + " x " + std::to_string(h) + " raster: height " + (e.empty() ? fmt(v) : e) + ", file says " + fmt(ref)); continue; }
-    if (cubic && !(h > (1 << 30) && (iy < 2 || iy > h - 3))) {
+    if (cubic) {
       // history independence far into the file: cubic height with and without an area cache around the point
       double u0 = 0, u1 = 0; std::string e1 = guarded([&] { cc.g->CacheClear(); u0 = (*cc.g)(lat, lon); cc.g->CacheArea(std::fmax(-90.0, lat - 2 * dlat), lon - 2 * dlon, std::fmin(90.0, lat + 2 * dlat), lon + 2 * dlon); u1 = (*cc.g)(lat + 0 * dlat, lon); });
       if (!e1.empty() || bits(u0) != bits(u1)) { if (nb++ < 3) bad("cache-mode-dependence", "cubic height at pixel " + std::to_string(q.first) + " of a large raster: " + (e1.empty() ? fmt(u0) + " uncached vs " + fmt(u1) + " cached" : e1)); }
@@ -332,8 +321,9 @@ static Reg r_big("geoidbig", [](const Args& a) {
   emit("1 " + std::to_string(n));
 });
 
-// rasters with a dimension above 2^30: the index arithmetic of rawval / CacheArea is done in int.  The probe runs in a child
-// process, so that a sanitizer abort is a result of this op and not the end of the harness.
+// rasters with a dimension above 2^30: the index arithmetic of rawval / CacheArea is done in int, so the constructor must
+// refuse them (finding F73, repaired).  The probe runs in a child process, so that a sanitizer abort - should such a
+// raster ever be accepted again - is a result of this op and not the end of the harness.
 #include <sys/wait.h>
 static Reg r_huge("geoidhuge", [](const Args& a) {
   // mode : 0 = height 2^30+1 (w = 2), cubic height at the south pole; 1 = width 1 500 000 000 (h = 3), height outside a small area cache
@@ -355,9 +345,9 @@ static Reg r_huge("geoidhuge", [](const Args& a) {
   int st = 0; waitpid(pid, &st, 0); std::remove(path.c_str());
   int rc = WIFEXITED(st) ? WEXITSTATUS(st) : 100 + (WIFSIGNALED(st) ? WTERMSIG(st) : 0);
   emit(std::to_string(rc));
-  // 0 = evaluated correctly, 3 = GeographicErr (a constructor that refuses such sizes would be fine); anything else: abort / wrong value
+  // 3 = GeographicErr (the constructor refuses such sizes), 0 = evaluated correctly; anything else: abort / wrong value
   if (rc != 0 && rc != 3) bad("huge-dimension-index-overflow", std::string(mode == 0 ? "raster 2 x 1073741825, cubic height at the south pole" : "raster 1500000000 x 3, height outside a small area cache") +
-    ": child process ended with status " + std::to_string(rc) + " (sanitizer abort: int overflow in rawval / CacheArea) [class:dimension-above-2^30]");
+    ": child process ended with status " + std::to_string(rc) + " (sanitizer abort: int overflow in rawval / CacheArea)");
 });
 
 // default path / name lookup
@@ -504,7 +494,7 @@ void gv::generate(const std::string& tier, uint64_t seed) {
   Rng r(seed * 49979687 + 20);
   const bool thorough = tier == "thorough";
   long n = thorough ? 1500 : 300;
-  static const std::vector<int> oddh = {59, 111, 117, 187, 27, 53, 99, 105, 61, 181};      // raster heights whose latitude scale (h-1)/180 is inexact, some with the north-pole row class
+  static const std::vector<int> oddh = {59, 111, 117, 187, 27, 53, 99, 105, 61, 181};      // raster heights whose latitude scale (h-1)/180 is inexact: 90 * _rlatres rounds above (h-1)/2 for 59, 111, 117, 187 (the row clamp at the north pole)
   for (long i = 0; i < n; ++i) {
     int w = 2 * r.irange(1, thorough ? 40 : 8), h = 2 * r.irange(1, thorough ? 20 : 4) + 1;
     if (i % 11 == 0) { w = 2; h = 3; }
@@ -564,13 +554,13 @@ void gv::generate(const std::string& tier, uint64_t seed) {
     }
     // a valid raster of more than 4 GiB
     if (i % (thorough ? 25 : 40) == 7) {
-      static const std::vector<std::pair<long, long>> dims = {{65536, 32769}, {4096, 524291}, {2, 1073741823}, {46342, 46341}, {21600, 99421}, {4, 536870913}, {1073741824, 3}, {65538, 65537}, {2, 1073741825}};
+      static const std::vector<std::pair<long, long>> dims = {{65536, 32769}, {4096, 524291}, {2, 1073741823}, {46342, 46341}, {21600, 99421}, {4, 536870913}, {1073741824, 3}, {65538, 65537}, {2, 1073741823}};
       auto d = r.pick(dims); if (!thorough && d.first * d.second > (1ll << 33)) d = dims[0];
       c20::HB b; b.comments = {"# Offset -108\n", "# Scale 0.003\n"}; b.size = std::to_string(d.first) + " " + std::to_string(d.second) + "\n";
       run("geoidbig", {r.coin() ? "1" : "0", hs(b.str()), std::to_string(d.first), std::to_string(d.second), std::to_string(r.next() % 1000000)});
       stratum("large-raster-sparse");
     }
-    // dimensions above 2^30 (open finding: int overflow in the index arithmetic)
+    // dimensions above 2^30 (must be refused: the index arithmetic is done in int)
     if (i == 9 || (thorough && i % 300 == 9)) { run("geoidhuge", {std::to_string(int(i / 300) % 2 + (thorough ? 0 : int(seed % 2)))}); stratum("dimension-above-2^30"); }
     // default path and name
     if (i % 8 == 3) {
